@@ -158,6 +158,16 @@ class C02(Prop):
                 cases.append({"kind": "response:program-version", "from_ver": ver,
                               "f": [0xC0, rng.choice([0x45, 0]), sender, rng.choice([48, rng.randrange(256)]), rng.choice([5, rng.randrange(256)]),
                                     list(m[0])]})
+        # program-version responses WITHOUT version data (what the library answers a controller's request with): the default version
+        # structure, its last byte the address of the frame's sender -- for every sender
+        sw = [int(x) for x in str(G.tables().get("software_version") or "0.0.0").split(".")]
+        default_ver = [[0xFF, 0xFF], 5, [0x7A, 0x00], [0, 0, 0], sw[0], sw[1], sw[2]]
+        for sender in (0x56, 0x45, 0x51, 0x00):
+            for rcpt in (0x45, 0x00):
+                m = model.call("encode_version", [default_ver, sender])
+                if m:
+                    cases.append({"kind": "response:program-version:default", "from_ver": "default",
+                                  "f": [0xC0, rcpt, sender, 48, 5, list(m[0])]})
         # one frame object serialised, then given other header fields / payload / data, and serialised again:
         # the second serialisation must be that of the fields it has then
         reused = []
@@ -230,10 +240,13 @@ class C02(Prop):
                 from pyplumio.frames.responses import ProgramVersionResponse
                 from pyplumio.structures.program_version import VersionInfo
                 f, v = case["f"], case["from_ver"]
-                vi = VersionInfo(software="%d.%d.%d" % (v[4], v[5], v[6]), struct_tag=bytes(v[0]), struct_version=v[1],
-                                 device_id=bytes(v[2]), processor_signature=bytes(v[3]))
-                frame = ProgramVersionResponse(recipient=FI.addr(f[1]), sender=FI.addr(f[2]), econet_type=f[3], econet_version=f[4],
-                                               data={"version": vi})
+                if v == "default":
+                    frame = ProgramVersionResponse(recipient=FI.addr(f[1]), sender=FI.addr(f[2]), econet_type=f[3], econet_version=f[4])
+                else:
+                    vi = VersionInfo(software="%d.%d.%d" % (v[4], v[5], v[6]), struct_tag=bytes(v[0]), struct_version=v[1],
+                                     device_id=bytes(v[2]), processor_signature=bytes(v[3]))
+                    frame = ProgramVersionResponse(recipient=FI.addr(f[1]), sender=FI.addr(f[2]), econet_type=f[3], econet_version=f[4],
+                                                   data={"version": vi})
             elif case["kind"] == "envelope":
                 frame = FI.make_frame(*case["f"])
             else:
